@@ -126,7 +126,20 @@ func (d *Dialer) Times() []time.Time {
 	return append([]time.Time{}, d.Attempts...)
 }
 
+// OptDelay makes every Dialer.SetOption take this long (a transport that is slow to configure): it widens the window
+// between the two locked sections of core's Socket.NewDialer
+var OptDelay time.Duration
+var optDelayMu sync.Mutex
+
+func SetOptDelay(d time.Duration) { optDelayMu.Lock(); OptDelay = d; optDelayMu.Unlock() }
+
 func (d *Dialer) SetOption(n string, v interface{}) error {
+	optDelayMu.Lock()
+	dl := OptDelay
+	optDelayMu.Unlock()
+	if dl > 0 {
+		time.Sleep(dl)
+	}
 	if n == mangos.OptionMaxRecvSize {
 		d.mu.Lock()
 		d.opts[n] = v
